@@ -916,3 +916,119 @@ func init() {
 		return iface{}, true
 	}})
 }
+
+// errors.Is / errors.As use internal/reflectlite; modelled natively over the
+// interpreter's interface values (same chain walk: the error itself, its
+// Is/As method, Unwrap() error, Unwrap() []error).
+func init() {
+	method := func(w *world, t types.Type, name string) *ssa.Function {
+		ms := w.prog.MethodSets.MethodSet(t)
+		for i := 0; i < ms.Len(); i++ {
+			if ms.At(i).Obj().Name() == name {
+				return w.prog.MethodValue(ms.At(i))
+			}
+		}
+		return nil
+	}
+	comparable := func(t types.Type) bool { return types.Comparable(t) }
+	var is func(w *world, c *frame, err, target iface, depth int) bool
+	is = func(w *world, c *frame, err, target iface, depth int) bool {
+		if depth > 100 {
+			panic(unsupported("errors.Is: chain too deep"))
+		}
+		for err.t != nil {
+			if target.t != nil && comparable(target.t) && sameType(err.t, target.t) {
+				if w.branch(w.eqTerm(err.t, err.v, target.v)) {
+					return true
+				}
+			}
+			if m := method(w, err.t, "Is"); m != nil && m.Signature.Params().Len() == 1 {
+				if r, ok := w.callSSA(c, 0, m, []value{err.v, target}, nil).(bool); ok && r {
+					return true
+				}
+			}
+			m := method(w, err.t, "Unwrap")
+			if m == nil || m.Signature.Results().Len() != 1 {
+				return false
+			}
+			switch r := w.callSSA(c, 0, m, []value{err.v}, nil).(type) {
+			case iface:
+				err = r
+			case []value:
+				for _, e := range r {
+					if ei, ok := e.(iface); ok && is(w, c, ei, target, depth+1) {
+						return true
+					}
+				}
+				return false
+			default:
+				return false
+			}
+		}
+		return target.t == nil
+	}
+	externals["errors.Is"] = func(w *world, c *frame, _ *ssa.Function, args []value) (value, bool) {
+		err, target := args[0].(iface), args[1].(iface)
+		if err.t == nil || target.t == nil {
+			return err.t == nil && target.t == nil, true
+		}
+		return is(w, c, err, target, 0), true
+	}
+	var as func(w *world, c *frame, err iface, target iface, T types.Type, ptr *value, depth int) bool
+	as = func(w *world, c *frame, err iface, target iface, T types.Type, ptr *value, depth int) bool {
+		if depth > 100 {
+			panic(unsupported("errors.As: chain too deep"))
+		}
+		for err.t != nil {
+			if types.AssignableTo(err.t, T) {
+				if _, isIface := T.Underlying().(*types.Interface); isIface {
+					*ptr = err
+				} else {
+					*ptr = err.v
+				}
+				return true
+			}
+			if m := method(w, err.t, "As"); m != nil && m.Signature.Params().Len() == 1 {
+				if r, ok := w.callSSA(c, 0, m, []value{err.v, target}, nil).(bool); ok && r {
+					return true
+				}
+			}
+			m := method(w, err.t, "Unwrap")
+			if m == nil || m.Signature.Results().Len() != 1 {
+				return false
+			}
+			switch r := w.callSSA(c, 0, m, []value{err.v}, nil).(type) {
+			case iface:
+				err = r
+			case []value:
+				for _, e := range r {
+					if ei, ok := e.(iface); ok && as(w, c, ei, target, T, ptr, depth+1) {
+						return true
+					}
+				}
+				return false
+			default:
+				return false
+			}
+		}
+		return false
+	}
+	externals["errors.As"] = func(w *world, c *frame, _ *ssa.Function, args []value) (value, bool) {
+		err, target := args[0].(iface), args[1].(iface)
+		if target.t == nil {
+			panic(targetPanicMsg("errors: target cannot be nil"))
+		}
+		pt, ok := target.t.Underlying().(*types.Pointer)
+		if !ok {
+			panic(targetPanicMsg("errors: target must be a non-nil pointer"))
+		}
+		ptr, _ := target.v.(*value)
+		if ptr == nil {
+			panic(targetPanicMsg("errors: target must be a non-nil pointer"))
+		}
+		if err.t == nil {
+			return false, true
+		}
+		return as(w, c, err, target, pt.Elem(), ptr, 0), true
+	}
+}
